@@ -269,6 +269,8 @@ def run_miri(ctx, cases, corr, per_tag=12, limit=700):
             outs.pop()
         total += len(outs)
         for c, o in zip(sample, outs):
+            if c.kind == "arb" and o.startswith("valid "):
+                o = "valid"             # same canonicalisation as the native run (execute)
             if o != c.impl:
                 m = Case(c.kind, c.cfg, c.hline, c.lline, tag="miri: " + c.tag, impl=o, model=c.model, feats=c.feats)
                 m.oracle = "same outcome as the native build: " + c.impl[:200]
